@@ -1,6 +1,6 @@
 SPECIFICATION MCSpec
 CONSTANTS
-  Tier = "quick"
+  Tier = "thorough"
   EmitFile = "cases.ndjson"
 INVARIANTS InvGen
 CHECK_DEADLOCK FALSE
